@@ -31,6 +31,8 @@ class Recorder:
         self.oid_of = {}
         self.keep = []  # keeps every object ever seen alive so id()s stay unique
         self.prev = {}
+        self.prevraw = {}
+        self.rawch = []
         self.mh_ret = {}
         self.slot_pi = {}  # slots holding DataFrame histograms are projected with one gamma per axis
         self.events = []
@@ -44,8 +46,24 @@ class Recorder:
             self.keep.append(o)
         return self.oid_of[id(o)]
 
+    def rawsig(self, o):
+        """bit-exact signature of an aggregator's content (its own serialisation, floats printed exactly): the
+        rational reconstruction of pi deliberately absorbs rounding, so 'exactly as before' is also checked on this"""
+        try:
+            return json.dumps(o.toJson(), sort_keys=True)
+        except Exception as e:
+            return "unserialisable:" + type(e).__name__
+
     def observe(self):
         ch = []
+        self.rawch = []
+        for s in sorted(self.objs):
+            sig = self.rawsig(self.objs[s])
+            if self.prevraw.get(s) != sig:
+                self.rawch.append(s)
+                self.prevraw[s] = sig
+        for s in [s for s in self.prevraw if s not in self.objs]:
+            del self.prevraw[s]
         for s in sorted(self.objs):
             o = self.objs[s]
             pi = self.slot_pi.get(s, self.pi)
@@ -316,7 +334,7 @@ class Recorder:
             self.prev[c["s"]] = c["v"]
         for s in dropped:
             del self.prev[s]
-        ev.update(out=out, exc=exc, ch=ch, sh=shares(self.objs))
+        ev.update(out=out, exc=exc, ch=ch, raw=list(self.rawch), sh=shares(self.objs))
         ev.update(extra)
         self.events.append(to_json(ev))
         return ev
